@@ -301,6 +301,44 @@ theorem LArrow.slice_wf {a r : LArrow} (s t : Option Int) (ha : a.WF) (h : a.sli
     show Chain b.dom (b :: bs) _
     rw [← h1, h2]; exact hc
 
+theorem chain_sub {s c : Ty} {xs : List Layer} (m k : Nat) (h : Chain s xs c) :
+    ∃ s' c', Chain s' ((xs.drop m).take k) c' := by
+  obtain ⟨s', h1⟩ := chain_drop m h
+  obtain ⟨c', h2⟩ := chain_take k h1
+  exact ⟨s', c', h2⟩
+
+theorem LArrow.sliceRevEmpty_wf {a r : LArrow} (s : Option Int) (h : a.sliceRevEmpty s = .ok r) :
+    r.WF := by
+  unfold LArrow.sliceRevEmpty LArrow.idAfter at h
+  split at h
+  · cases h; simp [LArrow.WF, Chain]
+  · split at h
+    · cases h; simp [LArrow.WF, Chain]
+    · cases h
+
+theorem LArrow.sliceRev_wf {a r : LArrow} (s t : Option Int) (ha : a.WF)
+    (h : a.sliceRev s t = .ok r) : r.WF := by
+  unfold LArrow.sliceRev at h
+  split at h
+  · exact LArrow.sliceRevEmpty_wf s h
+  · rename_i b bs hb
+    cases h
+    unfold pySliceRev at hb
+    obtain ⟨s', c', hc⟩ := chain_sub _ _ ha
+    have hd := chain_dag hc
+    rw [hb] at hd
+    obtain ⟨h1, h2⟩ := chain_cons_last hd
+    show Chain b.dom (b :: bs) _
+    rw [← h1, h2]; exact hd
+
+theorem Diagram.sliceRev_wf {d d' : Diagram} (s t : Option Int) (hd : d.WF)
+    (h : d.sliceRev s t = .ok d') : d'.WF := by
+  unfold Diagram.sliceRev at h
+  split at h
+  · cases h
+  · rename_i ls hls; cases h
+    exact Diagram.ofLayers_wf (LArrow.sliceRev_wf s t hd.chain hls)
+
 theorem Diagram.slice_wf {d d' : Diagram} (s t : Option Int) (hd : d.WF)
     (h : d.slice s t = .ok d') : d'.WF := by
   unfold Diagram.slice at h
